@@ -42,6 +42,7 @@ type scheduler struct {
 type lockState struct {
 	writer  *thread
 	readers map[*thread]int
+	waitingWriters int // sync.RWMutex: a blocked Lock excludes new readers
 }
 
 var S *scheduler
@@ -402,7 +403,9 @@ func extLock(fr *frame, a []value) value {
 	schedPoint(fr, "lock")
 	l := lockOf(p)
 	cur := S.cur
+	l.waitingWriters++
 	S.block(func() bool { return l.writer == nil && len(l.readers) == 0 }, fmt.Sprintf("Lock in %s", whereAmI()))
+	l.waitingWriters--
 	l.writer = cur
 	cur.held[p]++
 	return nil
@@ -436,7 +439,7 @@ func extRLock(fr *frame, a []value) value {
 	schedPoint(fr, "rlock")
 	l := lockOf(p)
 	cur := S.cur
-	S.block(func() bool { return l.writer == nil }, fmt.Sprintf("RLock in %s", whereAmI()))
+	S.block(func() bool { return l.writer == nil && l.waitingWriters == 0 }, fmt.Sprintf("RLock in %s", whereAmI()))
 	l.readers[cur]++
 	return nil
 }
